@@ -149,6 +149,7 @@ func verifH_C01_accept() {
 		o.q2 = append(o.q2, e)
 	}
 	o.observe("C01")
+	o.drain("C01")
 }
 
 // L01.c / L03.a: one acknowledgement with an arbitrary 2-byte body.
@@ -275,6 +276,7 @@ func verifH_C01_ack() {
 		}
 	}
 	o.observe("C01/C03")
+	o.drain("C01/C03")
 }
 
 // L01.b / L05: resend under faults writes a prefix of the pending sequence,
